@@ -7,7 +7,7 @@
   compact files Tdf.new and BTS software write, with any payload bytes (also of undecodable types).
   Operations must be acceptable (`OpsOk`): real block types (≠ 0), honest sizes (C02), results < 2 GiB.
 -/
-import TdfProofs.Lemmas.Layout
+import TdfProofs.Lemmas.Foreign
 namespace Tdf.C03
 
 /-- every finite history ends in the image of a well-formed layout (and behaves like the spec) -/
@@ -52,6 +52,31 @@ theorem add_after_remove_no_overlap (l : Lay) (ok : l.Ok) (t : Nat) (b : BlkArg)
   obtain ⟨h1, h2⟩ := run_sim l ok _ hops
   rw [h1]
   exact (wfTable_of_lay _ h2).2.1
+
+/-- FOREIGN FILES, table level (`_partial`): the start states of `history_wf` are the compact layouts the library and BTS software
+    write. A well-formed file of other software may list its blocks in ANY order and leave gaps between them. For every such
+    table — no assumption beyond the property's own `WFTable` — the table `remove_block` leaves behind is well-formed again, for the
+    file shortened by the removed block: every live range after the table and inside the file, no two overlapping, unused slots
+    of size zero. What is missing for the full statement on such files is the byte level (that the rewritten table parses back to
+    this one and the file has exactly that length) and `add_block` (which needs the convention of C09 on top: unused slots
+    point at the end of the data); both are covered on permuted and gappy files by the correspondence and the `wfB` judge only. -/
+theorem remove_any_table_wf_partial (s : TdfSt) (t : Nat) (now : Int) (flen pos : Nat) (ht : t ≠ 0)
+    (hfind : findType t s.entries = some pos) (hwf : WFTable s.nEntries flen s.entries) :
+    WFTable s.nEntries (flen - (s.entries.getD pos unusedEntry).size.toNat) (removeBlock s t now).1.entries := by
+  rw [removeBlock_entries s t now pos hfind]
+  obtain ⟨e, h1, h2, h3⟩ := findIdxBy_some _ _ _ hfind
+  have hget : s.entries.getD pos unusedEntry = e := by simp [List.getD_eq_getElem?_getD, h1]
+  rw [hget]
+  have hlive : e.typ ≠ 0 := by
+    have : e.typ = t := by simpa using h2
+    rw [this]; exact ht
+  rw [h3] at hwf
+  exact remove_keeps_table_wf _ _ _ _ e _ hlive ⟨rfl, rfl⟩ hwf
+
+/-- the hypothesis is met by a table that lists two blocks in the REVERSE of their storage order (N = 3, 4 960-byte file) -/
+example : WFTable 3 4960 [⟨11, 1, 4000, 960, 0, 0, 0, []⟩, ⟨16, 1, 928, 3072, 0, 0, 0, []⟩, ⟨0, 0, 4960, 0, 0, 0, 0, []⟩] := by decide
+example : (removeBlock ⟨[], [], [⟨11, 1, 4000, 960, 0, 0, 0, []⟩, ⟨16, 1, 928, 3072, 0, 0, 0, []⟩, ⟨0, 0, 4960, 0, 0, 0, 0, []⟩], 3⟩ 11 7).1.entries.map (·.off)
+    = [928, 4000, 4000] := by decide
 
 /-- THE JUDGE IS EXACT: `wfB`, which the harness runs on the bytes the real code leaves on disk, accepts
     a file iff its header and table parse and the parsed table satisfies the declarative `WFTable` -/
